@@ -356,6 +356,15 @@ def c06(out, tv, const=2):
         elif ev[0] == 'DEP' and ev[2] == 'meet' and ev[1] in field_tids and ev[3] in line_names and ev[3] not in have:
             v.append(('met-announced-without-a-value', f'{ev[3]} was announced as met although it has no value: its waiters are released before their dependency is met'))
             break
+    # an input is announced as met only once it was supplied (a question the user declined supplies nothing)
+    input_tids = {ev[1] for ev in tv.events if ev[0] == 'DEP' and ev[2] == 'add_unmet' and ev[3] in input_deps - line_deps} - field_tids
+    got_in = set(getattr(out, 'initial_inputs', {}) or {})
+    for ev in tv.events:
+        if ev[0] == 'PROMPT' and ev[4]:
+            got_in.add(ev[1])
+        elif ev[0] == 'DEP' and ev[2] == 'meet' and ev[1] in input_tids and ev[3] in input_deps - line_deps and ev[3] not in got_in and not provided_now(out, ev[3]):
+            v.append(('input-met-announced-although-not-supplied', f'input {ev[3]} was announced as met although nobody supplied it: the lines waiting for it are released to fail again'))
+            break
     # tracker history: a yield needs a registered waiter of a met dependency
     pend, met = {}, {}
     for ev in tv.events:
